@@ -212,12 +212,16 @@ fn part_b(rep: &Report, tier: Tier) {
         let pd = pdu(p, 0);
         let pt = [0x0800u16, 0x86DD, 0xFFFF][p % 3];
         for b1 in 7..=(4 + 6 + p + 1 + 4) {
-            for (b2, via_ext) in [(7usize, false), (8, false), (9, true), (13, false), (70000, true), (64, false)] {
-                let exts: Vec<(u16, Vec<u8>)> = if via_ext { vec![(0x0202, vec![0xE1, 0xE2])] } else { vec![] };
+            for (b2, via) in [(7usize, 0u8), (8, 0), (9, 1), (13, 0), (70000, 1), (64, 0), (9, 2), (64, 2)] {
+                // via 0: encap; 1: encap_ext with one optional extension; 2: encap_ext with an optional extension followed
+                // by a final mandatory one (the protocol type IS that extension's id)
+                let via_ext = via != 0;
+                let pt = if via == 2 { 0x0081 } else { pt };
+                let exts: Vec<(u16, Vec<u8>)> = match via { 0 => vec![], 1 => vec![(0x0202, vec![0xE1, 0xE2])], _ => vec![(0x0303, vec![1, 2, 3, 4]), (0x0081, vec![])] };
                 let rec_tx = RecCrc::new();
                 let rec_rx = RecCrc::new();
                 let mut enc = Encapsulator::new(rec_tx.clone());
-                let mut rx = RxS::new(2, p.max(1), &[p.max(1), p.max(1), p.max(1)]).build(rec_rx.clone(), TableMgr::none());
+                let mut rx = RxS::new(2, p.max(1), &[p.max(1), p.max(1), p.max(1)]).build(rec_rx.clone(), crate::rxalpha::mgr_std());
                 let mut scratch = [0u8; 32];
                 let (pass, intended, wire_label): (Lbl, Lbl, Vec<u8>) = match lk {
                     Lk::Plain(l) => (l, l, l.bytes()),
@@ -242,7 +246,7 @@ fn part_b(rep: &Report, tier: Tier) {
                 };
                 acc.outcome("B:first:Fragmented");
                 let rank = (p * 1000 + b1) as u64;
-                let wit = || json!({"pdu_len":p,"pdu_pattern":0,"pt":pt,"label_kind":format!("{:?}",lk),"first_buffer":b1,"next_buffers":b2,"via":if via_ext { "encap_ext with one optional extension" } else { "encap" }});
+                let wit = || json!({"pdu_len":p,"pdu_pattern":0,"pt":pt,"label_kind":format!("{:?}",lk),"first_buffer":b1,"next_buffers":b2,"via":(["encap", "encap_ext with one optional extension", "encap_ext with an optional and a final mandatory extension"][via as usize])});
                 // what was written?
                 let written_lt = (buf[0] >> 4) & 3;
                 let on_wire: Vec<u8> = if written_lt == 3 { vec![] } else { pass.bytes() };
@@ -318,7 +322,7 @@ fn part_b(rep: &Report, tier: Tier) {
         rep.merge(acc);
     });
     let _ = refm::header_fields;
-    rep.part(json!({"part":"B wiring","pdu_lengths":format!("0..={}",maxp),"label_kinds":6,"first_buffers":"7..=p+15","next_buffers":[7,8,9,13,64,70000],"via":"encap and encap_ext (one optional extension)"}));
+    rep.part(json!({"part":"B wiring","pdu_lengths":format!("0..={}",maxp),"label_kinds":6,"first_buffers":"7..=p+15","next_buffers":[7,8,9,13,64,70000],"via":"encap, encap_ext (one optional extension), encap_ext (optional + final mandatory extension, protocol type = its id)"}));
 }
 
 /// C: hand-built trains on the receiver side, conformant and with an inconsistent total length:
